@@ -42,6 +42,11 @@ func propC19(w *World, r *Report) {
 	RunUnsignedCountdown(w, r, fns)
 	RunDupAssign(w, r, fns)
 	checkStableSort(w, r, fns)
+	for _, a := range boundsAssumptions {
+		r.Assumes(a)
+	}
+	RunNarrowSucc(w, r, fns, newBoundsRun(w))
+	RunNarrowSuccControl(r)
 	r.Floor("goroutine", 2)
 }
 
